@@ -104,6 +104,44 @@ func scripts() map[string]Script {
 				blk(time.Minute, fee),
 			}
 		},
+		// drain-and-refill: two assets on the same validators, non-integer share ratios after a slash, every
+		// delegator exits one asset completely (through different validators, leaving rounding dust behind),
+		// the asset's staked total returns to zero, then it is staked again
+		"drain-refill": func(g *Gen, c *Config) []Step {
+			c.Assets = []AssetSpec{
+				{Denom: "aaa", Weight: "0.5", WMin: "0", WMax: "10", TakeRate: "0.001", StartDelay: -int64(time.Hour), Mag: "1000"},
+				{Denom: "bbb", Weight: "1", WMin: "0", WMax: "10", TakeRate: "0", StartDelay: -int64(time.Hour), Mag: "1000000"},
+			}
+			c.Fund = "1000000000"
+			c.SlashDouble = "0.5"
+			c.UnbondingNs = int64(time.Hour)
+			c.TakeIntervalNs = int64(time.Minute)
+			fee := "2000000stake"
+			return []Step{
+				{K: "delegate", A: 0, V: 1, Den: "aaa", Amt: "1000"},
+				{K: "delegate", A: 1, V: 2, Den: "aaa", Amt: "333"},
+				{K: "delegate", A: 2, V: 3, Den: "aaa", Amt: "77"},
+				{K: "delegate", A: 3, V: 1, Den: "bbb", Amt: "823529"},
+				{K: "delegate", A: 3, V: 2, Den: "bbb", Amt: "500000"},
+				{K: "delegate", A: 4, V: 3, Den: "bbb", Amt: "1234567"},
+				blk(6*time.Second, fee),
+				{K: "block", Block: &BlockSpec{DtNs: int64(6 * time.Second), Fees: fee, Evidence: []Evidence{{Val: 3, HeightBack: 1}}}},
+				blk(61*time.Second, fee),
+				blk(61*time.Second, fee),
+				// exits: partial ones first so that sub-unit remainders appear
+				{K: "undelegate", A: 1, V: 2, Den: "aaa", Amt: "300"},
+				{K: "undelegate", A: 2, V: 3, Den: "aaa", Amt: "20"},
+				blk(61*time.Second, fee),
+				{K: "undelegate", A: 2, V: 3, Den: "aaa", Amt: "bal"},
+				{K: "undelegate", A: 1, V: 2, Den: "aaa", Amt: "bal"},
+				blk(6*time.Second, fee),
+				{K: "undelegate", A: 0, V: 1, Den: "aaa", Amt: "bal"},
+				blk(6*time.Second, fee),
+				{K: "delegate", A: 0, V: 2, Den: "aaa", Amt: "500"},
+				{K: "delegate", A: 1, V: 1, Den: "aaa", Amt: "1"},
+				blk(6*time.Second, fee),
+			}
+		},
 		// a native delegator removes the whole delegation, followed by quiet blocks
 		"native-full-exit": func(g *Gen, c *Config) []Step {
 			fee := "2000000stake"
@@ -134,6 +172,8 @@ func checkDefs() map[string]*CheckDef {
 		},
 		{
 			Prop: "C03",
+			Scripts: []string{"drain-refill"},
+			ProbeEvery: 3,
 			Runs: []ProfRun{{"core", 64, 1200}, {"extreme", 48, 900}},
 			Mons: func(r *Runner) []Monitor { return []Monitor{NewMonC03(r)} },
 			Required: []string{"C03.slash", "C03.take-rate", "C03.tx.undelegate", "C03.tx.redelegate"},
@@ -277,6 +317,7 @@ func valueDefs() []*CheckDef {
 		},
 		{
 			Prop: "C04",
+			Scripts: []string{"drain-refill"},
 			Runs: []ProfRun{{"core", 64, 1200}, {"queue", 32, 600}, {"extreme", 32, 600}},
 			Mons: func(r *Runner) []Monitor { return []Monitor{NewMonC04(r)} },
 			ProbeEvery: 2,
